@@ -7,6 +7,7 @@
 import QV.Model.Reload
 import QV.Spec.Catalog
 import QV.Spec.Reload
+import QV.Generated.Reload
 
 namespace QV.Reload
 open QV QV.Catalog QV.Spec.Catalog QV.Spec.Reload
@@ -48,5 +49,11 @@ def viewOf (k : Key) : Step → Event
     | some zc => .configured (viewOfCfg fs zc)
     | none => .unconfigured
   | .configError => .configError
+
+/-- the shape of the signal loop in the repository under test (tools/extract_reload.py reads it
+    off src/bin/quandaryd/run.rs on every run) -/
+def codeShape : LoopShape :=
+  ⟨Gen.reloadStartupInstallsCatalog, Gen.reloadLoopThreadsCatalog, Gen.reloadInstallsCatalog,
+   Gen.reloadBaselineIsCurrent⟩
 
 end QV.Reload
